@@ -39,23 +39,24 @@ Theorem C20_lookalikes_not_matched :
 Proof. exact lookalikes_clear. Qed.
 Print Assumptions C20_lookalikes_not_matched.
 
-(* For every JSON tree and every object path p ++ [i] whose last step is the first sensitive
-   key on it: the cleaned tree holds, at that position, a placeholder made from the digest of
-   str(subtree) alone, and nothing exists below it.  str(), the digest and the quote colouring
-   are arbitrary functions. *)
+(* Paths step through object members AND array items ([jget]); [jkeys] lists the keys met.
+   For every JSON tree and every path p ++ [i] whose last step is the first sensitive key on
+   it - wherever it lies, inside arrays too: the cleaned tree holds, at that position, a
+   placeholder made from the digest of str(subtree) alone, and nothing exists below it.
+   str(), repr(), the digest and the quote colouring are arbitrary functions. *)
 Theorem C20_clean_redacts :
-  forall (str_of : json -> text) (digest colq : text -> text)
+  forall (str_of repr_of : json -> text) (digest colq : text -> text)
          (j : json) (p : list nat) (i : nat) (kvs : list (text * json)) (k : text) (v : json),
   forallb (fun k => negb (sensitive_spec k) && negb (ends_with [10] k)) (jkeys p j) = true ->
   jget p j = Some (JObj kvs) -> nth_error kvs i = Some (k, v) -> sensitive_spec k = true ->
-  cget (p ++ [i]) (clean_val sensitive_code str_of digest colq j) = Some (CRedacted (digest (str_of v))) /\
-  forall q, q <> [] -> cget ((p ++ [i]) ++ q) (clean_val sensitive_code str_of digest colq j) = None.
+  cget (p ++ [i]) (clean_val sensitive_code str_of repr_of digest colq j) = Some (CRedacted (digest (str_of v))) /\
+  forall q, q <> [] -> cget ((p ++ [i]) ++ q) (clean_val sensitive_code str_of repr_of digest colq j) = None.
 Proof. exact clean_redacts_spec. Qed.
 Print Assumptions C20_clean_redacts.
 
 (* Non-interference, on the dict of strings clean_record returns (hence on everything
-   rendered from it): replacing the value under a sensitive key by any other value with the
-   same digest does not change the output at all. *)
+   rendered from it): replacing the value under a sensitive key - at any depth of objects and
+   arrays - by any other value with the same digest does not change the output at all. *)
 Theorem C20_output_depends_on_secret_only_through_digest :
   forall (digest : text -> text) (colorize : bool) (o : obj) (p : list nat) (i : nat)
          (kvs : list (text * json)) (k : text) (v0 v1 v2 : json),
@@ -67,20 +68,49 @@ Theorem C20_output_depends_on_secret_only_through_digest :
 Proof. exact output_depends_on_digest_only. Qed.
 Print Assumptions C20_output_depends_on_secret_only_through_digest.
 
-(* Everything reached through non-sensitive keys is kept: a leaf as the coloured str() of
-   itself, an object as an object with the same keys in the same order. *)
+(* Everything reached through non-sensitive keys is kept.  [walk false p j = Some m] says the
+   path exists in the cleaned tree (it does not step inside an array of scalars, which is one
+   leaf) and whether it ends on an array item (m).  There the cleaned tree holds clean(v) ... *)
 Theorem C20_other_values_kept :
-  forall (str_of : json -> text) (digest colq : text -> text) (j : json) (p : list nat) (v : json),
+  forall (str_of repr_of : json -> text) (digest colq : text -> text) (j : json) (p : list nat) (m : bool) (v : json),
   forallb (fun k => negb (sensitive_spec k) && negb (ends_with [10] k)) (jkeys p j) = true ->
-  jget p j = Some v ->
-  cget p (clean_val sensitive_code str_of digest colq j) =
-    Some (match v with
-          | JObj kvs => CObj (clean_obj sensitive_code str_of digest colq kvs)
-          | _ => CLeaf (colq (str_of v))
-          end) /\
-  forall kvs, map fst (clean_obj sensitive_code str_of digest colq kvs) = map fst kvs.
+  walk false p j = Some m -> jget p j = Some v ->
+  cget p (clean_val sensitive_code str_of repr_of digest colq j) =
+    Some (clean_at sensitive_code str_of repr_of digest colq m v).
 Proof. exact clean_keeps_spec. Qed.
 Print Assumptions C20_other_values_kept.
+
+(* ... and clean(v) is: an object with the same keys in the same order; an array cleaned item
+   by item when it is an item itself or holds an object/array, otherwise one leaf showing the
+   coloured str() of the whole array; a scalar as the coloured str() of itself (member value)
+   or its unchanged repr() (array item). *)
+Theorem C20_clean_shape :
+  forall (sens : text -> bool) (str_of repr_of : json -> text) (digest colq : text -> text),
+  (forall m kvs, clean_at sens str_of repr_of digest colq m (JObj kvs) =
+                 CObj (clean_obj sens str_of repr_of digest colq kvs) /\
+                 map fst (clean_obj sens str_of repr_of digest colq kvs) = map fst kvs) /\
+  (forall m l, m || existsb is_container l = true ->
+               clean_at sens str_of repr_of digest colq m (JArr l) =
+               CArr (map (clean_at sens str_of repr_of digest colq true) l)) /\
+  (forall l, existsb is_container l = false ->
+             clean_at sens str_of repr_of digest colq false (JArr l) = CLeaf (colq (str_of (JArr l)))) /\
+  (forall v, is_container v = false ->
+             clean_at sens str_of repr_of digest colq false v = CLeaf (colq (str_of v)) /\
+             clean_at sens str_of repr_of digest colq true v = CItem (repr_of v)).
+Proof. exact clean_shape. Qed.
+Print Assumptions C20_clean_shape.
+
+(* The former witness of finding F-C20-4 (fixed by 7f3dee2), now positive and for every secret:
+   objects inside arrays, at two levels, are cleaned; the scalar item between them is kept. *)
+Theorem C20_objects_inside_arrays_cleaned :
+  forall (str_of repr_of : json -> text) (digest colq : text -> text) (secret : json),
+  clean_val sensitive_code str_of repr_of digest colq
+    (JObj [(T "items", JArr [JObj [(T "password", secret)]; JStr (T "x"); JArr [JObj [(T "api_key", secret)]]])]) =
+  CObj [(T "items", CArr [CObj [(T "password", CRedacted (digest (str_of secret)))];
+                          CItem (repr_of (JStr (T "x")));
+                          CArr [CObj [(T "api_key", CRedacted (digest (str_of secret)))]]])].
+Proof. exact array_members_cleaned. Qed.
+Print Assumptions C20_objects_inside_arrays_cleaned.
 
 (* sanitize_record: whenever the colour-coded record is pre ++ m with pre empty or ending in
    '|' and m parses as a JSON object, the raw fall-back branch is not taken: the output is the
@@ -95,7 +125,7 @@ Theorem C20_json_tail_is_cleaned :
     sanitize_core sensitive_code parse digest can record =
       join [bar] (firstn i (split bar (color_code can record)) ++
                   [T " " ++ json_dumps_flat (render_obj colours_on
-                     (clean_obj sensitive_code py_str digest (colour_quotes colours_on) o'))]).
+                     (clean_obj sensitive_code py_str py_repr digest (colour_quotes colours_on) o'))]).
 Proof. exact (sanitize_clean_branch sensitive_code). Qed.
 Print Assumptions C20_json_tail_is_cleaned.
 
@@ -109,16 +139,6 @@ Theorem C20_url_userinfo_removed :
 Proof. exact url_hides. Qed.
 Print Assumptions C20_url_userinfo_removed.
 
-(* Finding F-C20-4: the full statement "for all paths through a sensitive key" fails for paths
-   that pass through an array: clean_record str()-s arrays, objects inside them are not cleaned. *)
-Theorem C20_objects_inside_arrays_refuted :
-  exists (secret : text) (o : obj),
-    o = [(T "items", JArr [JObj [(T "password", JStr secret)]])] /\
-    sensitive_spec (T "password") = true /\
-    contains secret (json_dumps_flat (clean_record_model (fun _ => T "00000000") false o)) = true.
-Proof. exact array_members_not_cleaned. Qed.
-Print Assumptions C20_objects_inside_arrays_refuted.
-
 (* Non-vacuity. *)
 Definition ex_record : obj :=
   [(T "user", JStr (T "bob"));
@@ -131,6 +151,19 @@ Example C20_nonvacuous_clean :
   clean_record_model (fun _ => T "0a1b2c3d") false ex_record =
     [(T "user", T "bob"); (T "cfg", T "{'DB_Password': '<redacted:0a1b2c3d>', 'port': '5432'}")].
 Proof. repeat split; try reflexivity. eexists _, _. split; reflexivity. Qed.
+
+(* a path through an array: rows[1].api_key, with a scalar item before it *)
+Definition ex_rows : obj :=
+  [(T "rows", JArr [JStr (T "it's"); JObj [(T "id", JNum (T "7")); (T "api_key", JStr (T "s3cret"))]]);
+   (T "tags", JArr [JStr (T "a"); JStr (T "b")])].
+
+Example C20_nonvacuous_array_path :
+  forallb (fun k => negb (sensitive_spec k) && negb (ends_with [10] k)) (jkeys [0%nat; 1%nat] (JObj ex_rows)) = true /\
+  (exists kvs, jget [0%nat; 1%nat] (JObj ex_rows) = Some (JObj kvs) /\ nth_error kvs 1 = Some (T "api_key", JStr (T "s3cret"))) /\
+  walk false [0%nat; 0%nat] (JObj ex_rows) = Some true /\ walk false [1%nat; 0%nat] (JObj ex_rows) = None /\
+  clean_record_model (fun _ => T "0a1b2c3d") false ex_rows =
+    [(T "rows", T "[""it's"", {'id': '7', 'api_key': '<redacted:0a1b2c3d>'}]"); (T "tags", T "['a', 'b']")].
+Proof. repeat split; try reflexivity. eexists. split; reflexivity. Qed.
 
 Example C20_nonvacuous_keys :
   map sensitive_code (map T ["db_password"; "my_PWD"; "client_secret"; "API_KEY"; "x_token"; "aws_credentials_file";
